@@ -42,10 +42,36 @@ func (f *Flow) absorb(g Flow) {
 func (vc *VC) execBlock(list []ast.Stmt, st *State) Flow {
 	var out Flow
 	cur := st
-	for _, s := range list {
+	for i, s := range list {
 		if cur == nil || cur.pc.IsFalse() {
 			cur = nil
 			break
+		}
+		// tail duplication: `if … {…}` (without else) followed only by a final return: the return (and its
+		// postconditions) is executed separately for the branch-taken and branch-not-taken states instead of on
+		// their join, which keeps the quantified postconditions of look-ahead buffers within the solvers' reach
+		if ifs, ok := s.(*ast.IfStmt); ok && ifs.Else == nil && ifs.Init == nil && i+2 == len(list) && vc.tailDup {
+			if ret, ok := list[i+1].(*ast.ReturnStmt); ok {
+				c := vc.eval(ifs.Cond, cur).C[0]
+				thenSt := cur.clone()
+				thenSt.pc = And(cur.pc, c)
+				elseSt := cur.clone()
+				elseSt.pc = And(cur.pc, Not(c))
+				if !thenSt.pc.IsFalse() {
+					f := vc.execBlock(ifs.Body.List, thenSt)
+					out.absorb(f)
+					if f.normal != nil && !f.normal.pc.IsFalse() {
+						vc.applyAts(ret, f.normal)
+						vc.execReturn(ret, f.normal)
+					}
+				}
+				if !elseSt.pc.IsFalse() {
+					vc.applyAts(ret, elseSt)
+					vc.execReturn(ret, elseSt)
+				}
+				out.normal = nil
+				return out
+			}
 		}
 		f := vc.execStmt(s, cur, "")
 		out.absorb(f)
@@ -632,6 +658,14 @@ func (vc *VC) havocForLoop(body ast.Node, extra []ast.Node, st *State, hint stri
 			continue
 		}
 		m2 := vc.modSet(e)
+		for o, fs := range m2.fields {
+			if mi.fields[o] == nil {
+				mi.fields[o] = map[string]bool{}
+			}
+			for f := range fs {
+				mi.fields[o][f] = true
+			}
+		}
 		for o := range m2.objs {
 			mi.objs[o] = true
 		}
@@ -647,6 +681,26 @@ func (vc *VC) havocForLoop(body ast.Node, extra []ast.Node, st *State, hint stri
 			continue // lives in memory
 		}
 		st.vars[o] = vc.freshVal(v.T, o.Name())
+	}
+	// struct locals with only some fields assigned: havoc those fields' components only
+	for o, fs := range mi.fields {
+		if mi.objs[o] || vc.addrTaken[o] {
+			continue
+		}
+		v, ok := st.vars[o]
+		if !ok {
+			continue
+		}
+		nc := append([]*Term{}, v.C...)
+		for f := range fs {
+			lo, hi, ft, ok := fieldRange(v.T, f)
+			if !ok {
+				continue
+			}
+			fv := vc.freshVal(ft, o.Name()+"."+f)
+			copy(nc[lo:hi], fv.C)
+		}
+		st.vars[o] = Val{T: v.T, C: nc}
 	}
 	// heaps
 	types_, all := vc.heapWriteSet(body, extra, mi)
